@@ -196,8 +196,10 @@ SINGLE_WANT = {
 }
 
 
-def check_single(ctx, F):
+def check_single(ctx, F, classes=None):
     for cls, outer in (("BitArrayT", None), ("Bits", "BitArrayT"), ("CBits", "BitArrayT")):
+        if classes and cls not in classes:
+            continue
         for name in ("get", "set", "clear"):
             for fid, b in pick(F, cls, name, outer):
                 dyn = bool(b.get("params"))
